@@ -137,8 +137,8 @@ PROPS["C02"] = {
 
 PROPS["C17"] = {
     "level": "other",
-    "technique": "Verus totality + termination contracts on the extracted protobuf reader (read_varint, parse_sample, parse_label, parse_timeseries, parse_write_request: every index, slice bound and addition proved safe for all byte strings, position strictly increasing); Kani complete harnesses for the checked end computation, the value routing over all f64 bit patterns and the ms->ns conversion; bounded harness for the varint value",
-    "verus": ["c17_parsers.rs.in"],
+    "technique": "Verus typestate contract on the extracted OTLP export_request_to_data_points (eight nested loops: every point is built from the resource attributes of the ResourceMetrics entry it belongs to, with its own metric name and timestamp); Verus totality + termination contracts on the extracted protobuf reader (read_varint, parse_sample, parse_label, parse_timeseries, parse_write_request: every index, slice bound and addition proved safe for all byte strings, position strictly increasing); Kani complete harnesses for the checked end computation, the value routing over all f64 bit patterns and the ms->ns conversion; bounded harness for the varint value",
+    "verus": ["c17_parsers.rs.in", "c17_otlp.rs.in"],
     "kani": ["c17_ingest"],
     "explanation": "Parser totality and termination are proved unbounded by Verus on the extracted text; end computation, value routing (all f64 bit patterns) and ms->ns conversion are complete Kani proofs; the varint value formula is checked by a bounded Kani harness (16-byte window). Row-level fidelity of the conversion loops (labels, ordering) and the OTLP path are not under contract, hence level other.",
     "assumptions": [
@@ -207,9 +207,9 @@ PROPS["C15"] = {
 
 PROPS["C18"] = {
     "level": "other",
-    "technique": "Verus contract on the extracted QueryFilter::apply_comparison and compare_f64 (row mask of `column OP literal` over typed arrow arrays: NULL never matches, every operator is its own symbol, a number literal is compared numerically against both numeric column types); Verus contracts on the extracted TopicFilter::matches (equals the filter's denotation, recursion through And / Or with the any / all closures lifted), FilteredReceiver::recv (delivers the first pending batch that matches, skips exactly the non-matching ones before it) and the WHERE-clause extractor of the live filter (try_column_op_value, try_extract_comparison, conjunction_of, extract_predicates_from_expr over a sqlparser AST shim: for comparisons in either operand order, AND, OR and parentheses the conjunction of the extracted list is equivalent to the WHERE clause)",
+    "technique": "Verus contracts on the extracted QueryFilter::apply (merge-point cut on the timestamp column, conjunction of the predicate list, row selection: exactly the wanted rows are delivered, None only if there is none), apply_predicate_to_mask (AND / OR / NOT over masks), apply_comparison and compare_f64 (row mask of `column OP literal` over typed arrow arrays: NULL never matches, every operator is its own symbol, a number literal is compared numerically against both numeric column types); Verus contracts on the extracted TopicFilter::matches (equals the filter's denotation, recursion through And / Or with the any / all closures lifted), FilteredReceiver::recv (delivers the first pending batch that matches, skips exactly the non-matching ones before it) and the WHERE-clause extractor of the live filter (try_column_op_value, try_extract_comparison, conjunction_of, extract_predicates_from_expr over a sqlparser AST shim: for comparisons in either operand order, AND, OR and parentheses the conjunction of the extracted list is equivalent to the WHERE clause)",
     "verus": ["c18_filters.rs.in", "c18_mask.rs.in"],
-    "explanation": "Filter denotation, delivery order and predicate extraction are proved for all filters, metadata, pending sequences and supported WHERE expressions. The leaf of the row-mask evaluation (apply_comparison) is under contract; the predicate-tree walk apply_predicate_to_mask (AND / OR / NOT over masks, IN / BETWEEN through closure-based leaf helpers), QueryFilter::apply (merge-timestamp cut, any(), filter_record_batch) are not; float equality is the code's epsilon equality, taken as intended; lag-induced drops are excluded by the property.",
+    "explanation": "Filter denotation, delivery order and predicate extraction are proved for all filters, metadata, pending sequences and supported WHERE expressions. The IN / NOT IN / BETWEEN arms of the mask walk (closure-based helpers row_matches_value / row_gte_value / row_lte_value, not produced by from_sql for the supported forms) are not under contract; NOT is two-valued as in the code; float equality is the code's epsilon equality, taken as intended; lag-induced drops are excluded by the property.",
     "assumptions": [
         "Iterator::any / all over a slice = exists / forall over its elements (combinator shims over the lifted closures); Vec::contains",
         "sqlparser's Expr has the shapes of the shim enum (BinaryOp{left,op,right}, Nested, Identifier, CompoundIdentifier, Value, other); parse_sql_value is an opaque literal reader; to_lowercase is a function",
